@@ -52,6 +52,9 @@ GROUPS = [
 
 # list / subscript / implicit-this spellings (docs/language.md): (property or "handler", text, accepted?)
 LISTS = [
+    # elisions: an array hole has no counterpart in a typed list (ECMAScript: an undefined element); a trailing comma makes none
+    ("items", "[\"a\", , \"b\"]", False), ("items", "[, \"a\"]", False), ("items", "[\"a\", , ]", False), ("text", "[\"x\", , \"y\"][1]", False), ("items", "[a.text, , a.textB]", False),
+    ("items", "[\"a\", \"b\", ]", True), ("items", "[a.text, ]", True), ("items", "[ /* none */ ]", True), ("items", "[\"a\", /* c */ \"b\"]", True),
     ("flag", "a.items[0].isEmpty()", True), ("text", "a.items[0] + \"x\"", True), ("text", "a.items[a.ival]", True), ("text", "a.items[a.uval]", True),
     ("items", "[a.items[0], \"b\"]", True), ("items", "[a.text, a.textB]", True), ("flag", "a.items.isEmpty()", True), ("flag", "a.items[0] == \"x\"", True),
     ("text", "this.text", True), ("ival", "this.ival + ival", True), ("text", "text + \"x\"", True),
